@@ -320,7 +320,23 @@ pub fn confirm_chunks(w: &Value) -> Value {
     let r = guarded(|| PwbV2Packet::try_from(chunks));
     match r {
         Err(p) => json!({"contradicts": true, "real": format!("panic: {p}"), "spec": format!("{expect:?}")}),
-        Ok(r) => { let got = real_class(&r); json!({"contradicts": got != expect && !(matches!(got, Class::Ok(_)) && expect == Class::Bad), "real": format!("{got:?}"), "spec": format!("{expect:?}")}) }
+        Ok(r) => {
+            let got = real_class(&r);
+            // where the ladder reaches the decode: the result is the direct decode of the payloads as they are on the wire
+            // (bytes 20 .. 20 + chunk_length of each chunk), concatenated in chunk-id order
+            let mut wire: Vec<(u16, Vec<u8>)> = bytes.iter().filter(|b| b.len() >= 24).map(|b| {
+                let len = u16::from_le_bytes([b[14], b[15]]) as usize;
+                (u16::from_le_bytes([b[12], b[13]]), b[20..(20 + len).min(b.len())].to_vec())
+            }).collect();
+            wire.sort();
+            let concat: Vec<u8> = wire.into_iter().flat_map(|x| x.1).collect();
+            let direct = PwbV2Packet::try_from(&concat[..]);
+            let decode_differs = matches!(expect, Class::Ok(_) | Class::Bad)
+                && (r.as_ref().ok().map(|p| format!("{p:?}")) != direct.as_ref().ok().map(|p| format!("{p:?}")));
+            json!({"contradicts": (got != expect && !(matches!(got, Class::Ok(_)) && expect == Class::Bad)) || decode_differs,
+                   "real": format!("{got:?}{}", if decode_differs { " -- differs from the direct decode of the concatenated payloads" } else { "" }),
+                   "spec": format!("{expect:?}; on success the packet decoded from the id-ordered concatenation of the payloads")})
+        }
     }
 }
 
